@@ -285,7 +285,9 @@ def sweep():
 # whole programs whose formatted text must compile to the same SQL: interpolated strings with white space in front of an embedded line break, CRLF, trailing blanks in s-strings
 # (the code generator writes the text of s- / f-strings with real line breaks: nothing after it may treat the output as lines of code - round-6 seed C14-12)
 _PROGRAMS = ['from t\nselect {label = f"{a}: \\n{b}", a}\nsort a\n', 'from t\nselect {x = s"CONCAT({a}, \' \\n\')"}\n', 'from t\nselect {label = f"{a}\\t\\n{b}\\r\\n"}\n',
-             "let a\nlet b <int>\nfrom t\nselect {c = a + b}\n"]
+             "let a\nlet b <int>\nfrom t\nselect {c = a + b}\n",
+             # intervals of count one (round-8 seed C14-15)
+             "from invoices\nderive {due = issued + 1months, grace = due + 1days, late = due + 14days}\n"]
 
 
 def _try_program(src):
